@@ -38,6 +38,7 @@ func c16(r *core.Run) {
 	r.Rule("D2", "logger: the in-memory logger's buffer and log.Logger are used only with the logger's mutex held (configuration setters aside)", 2)
 	r.Rule("D3", "mock store: the resource map is accessed only by transaction methods (alive only between Read/Write and Close) and the configuration helper Add", 2)
 	r.Rule("D4", "badgerstore configuration is frozen in use: fields of Store and QueryStore are written only by constructors and by the store's own exported configuration methods (Set*, OnChange, BeforeChange, OnQueryChange, AddIndex), which no transaction, query or rebuild path calls; transactions on different ids take different key locks and run in parallel, so any write on such a path is unsynchronised", 6)
+	r.Rule("G1", "callbacks only on workers (shared with C01.F1; the other premise of 'state touched only from a group's callbacks needs no user synchronisation'): every callback-kind dynamic call runs on a worker goroutine through the group's queue, or synchronously inside such a callback - never directly on the timer goroutine or another foreign goroutine, where it would run concurrently with the group's queued callbacks", 6)
 	r.Rule("A2", "group confinement (premise of 'state touched only from a group's callbacks needs no user synchronisation'): the lookup of a group's pending work item and the register/append that follows are one critical section (same obligations as C01.A2); otherwise two producers create two work items for one group, two workers run the group's callbacks at once and handler state races", 4)
 	r.Rule("O1", "request objects own their memory: in every function that builds a request object (Request, queryRequest, getRequest) each store into a field of the request or of its resource part goes to memory allocated in that function - not through a pointer into a longer-lived object (the query event, the service); requests of one query event or Parallel resource are processed concurrently, so a write through such a pointer is an unsynchronised write to shared state", 3)
 	r.Rule("O2", "lookups share no scratch state (shared with C06.R6): no function reachable from Mux.GetHandler writes Mux / node / handler state or appends into a slice or array held there; lookups run on the listener goroutine and on every goroutine calling With / Resource or emitting store changes", 1)
@@ -48,6 +49,7 @@ func c16(r *core.Run) {
 		return
 	}
 	c01Enqueue(r, a, e)
+	c01Funnel(r, "G1", a, p.FuncsOfPkg(""))
 	root := p.FuncsOfPkg("")
 	var firstGo ssa.Instruction
 	for _, c := range core.Calls(a.Serve) {
